@@ -343,7 +343,7 @@ func run(c Case, o *vt.Obs) *vt.Failure {
 			if w != nil && false {
 				_ = w
 			}
-			res, err := p.Worker(name, a.N).Poll()
+			res, err := replfx.Poll(p.Worker(name, a.N))
 			if err != nil {
 				return vt.Failf(prop+"/poll-error", i, "worker poll (%s): %v", res, err)
 			}
@@ -431,7 +431,7 @@ func run(c Case, o *vt.Obs) *vt.Failure {
 	}
 	reached := false
 	for k := 0; k < 6; k++ {
-		res, err := p.Worker(name, lastSrv).Poll()
+		res, err := replfx.Poll(p.Worker(name, lastSrv))
 		if err != nil {
 			return vt.Failf(prop+"/poll-error", len(c.Acts), "final poll (%s): %v", res, err)
 		}
